@@ -1234,6 +1234,19 @@ package main
 
 //@ func ParseMessage
 //@   sensures nn: err == nil ==> result != nil
+//@   props C11 C10
+//@   uses stream
+//@   event pmInput: RS[reader]
+//@   ensures forward-only: len(RS[reader]) <= len(old(RS[reader])) && RS[reader] == old(RS[reader])[len(old(RS[reader]))-len(RS[reader]):]
+//@   ensures other-streams: forall r int :: r != reader ==> RS[r] == old(RS[r])
+//@   ensures fresh-message: err == nil ==> fresh(result)
+//@   ensures body-is-next-bytes: err == nil ==> len(limitMarks) == len(old(limitMarks)) + 1 && len(result.body) <= len(limitMarks[len(old(limitMarks))])
+//@        && result.body == limitMarks[len(old(limitMarks))][0:len(result.body)] && RS[reader] == limitMarks[len(old(limitMarks))][len(result.body):]
+//@   ensures body-length-declared: err == nil ==> firstIdx(result.headers, "Content-Length") >= 0 && isType(result.headers[firstIdx(result.headers, "Content-Length")].value, "string")
+//@        && atoiOk(asStr(result.headers[firstIdx(result.headers, "Content-Length")].value)) && len(result.body) == atoiVal(asStr(result.headers[firstIdx(result.headers, "Content-Length")].value))
+//@   loop 0:
+//@     invariant len(RS[reader]) <= len(old(RS[reader])) && RS[reader] == old(RS[reader])[len(old(RS[reader]))-len(RS[reader]):] && limitMarks == old(limitMarks)
+//@     invariant forall r int :: r != reader ==> RS[r] == old(RS[r])
 
 //@ func (*Proxy).HandleRawMessage
 //@   srequires nn-msg: msg != nil
@@ -1351,8 +1364,37 @@ package main
 //@   modifies RS, RU, RE
 //@   ensures line: err == nil ==> result == lineOf(old(RS[reader])) && RS[reader] == afterLine(old(RS[reader]))
 //@   ensures nothing-on-empty: old(RS[reader]) == "" ==> err != nil
+//@   ensures forward-only: len(RS[reader]) <= len(old(RS[reader])) && RS[reader] == old(RS[reader])[len(old(RS[reader]))-len(RS[reader]):]
 //@   ensures failed-empty: err != nil ==> len(result) == 0
 //@   ensures other-streams: forall r int :: r != reader ==> RS[r] == old(RS[r])
 //@   loop 0:
 //@     invariant forall r int :: r != reader ==> RS[r] == old(RS[r])
 //@     invariant lineOf(old(RS[reader])) == line + lineOf(RS[reader]) && afterLine(old(RS[reader])) == afterLine(RS[reader])
+//@     invariant len(RS[reader]) <= len(old(RS[reader])) && RS[reader] == old(RS[reader])[len(old(RS[reader]))-len(RS[reader]):]
+
+//@ func skipWhiteSpace
+//@   props C11 C10
+//@   uses stream
+//@   modifies RS, RU, RE
+//@   ensures skips: err == nil ==> len(RS[reader]) <= len(old(RS[reader])) && RS[reader] == old(RS[reader])[len(old(RS[reader]))-len(RS[reader]):]
+//@        && (forall i int :: 0 <= i && i < len(old(RS[reader])) - len(RS[reader]) ==> isWsCode(old(RS[reader])[i])) && len(RS[reader]) > 0 && !isWsCode(RS[reader][0])
+//@   ensures failed-only-ws: err != nil ==> len(RS[reader]) <= len(old(RS[reader])) && RS[reader] == old(RS[reader])[len(old(RS[reader]))-len(RS[reader]):]
+//@        && (forall i int :: 0 <= i && i < len(old(RS[reader])) - len(RS[reader]) ==> isWsCode(old(RS[reader])[i]))
+//@   ensures other-streams: forall r int :: r != reader ==> RS[r] == old(RS[r])
+//@   loop 0:
+//@     invariant len(RS[reader]) <= len(old(RS[reader])) && RS[reader] == old(RS[reader])[len(old(RS[reader]))-len(RS[reader]):]
+//@     invariant forall i int :: 0 <= i && i < len(old(RS[reader])) - len(RS[reader]) ==> isWsCode(old(RS[reader])[i])
+//@     invariant forall r int :: r != reader ==> RS[r] == old(RS[r])
+
+// a datagram travels from the receive loop to the parse loop as (buffer, length): the length never exceeds the buffer
+//@ chaninv SizedByteArray: 0 <= $v.n && $v.n <= len($v.b)
+
+//@ func (*UDPServerTransport).startParseMessage
+//@   props C10
+//@   loop 0:
+//@     step datagram-is-the-input: pmInput == prev(pmInput) ++ seq1(sized_byte_array.b[0:sized_byte_array.n])
+
+//@ func (*TCPServerTransport).receiveMessage
+//@   props C11
+//@   loop 0:
+//@     step stream-continues: len(pmInput) == len(prev(pmInput)) + 1 && pmInput[len(prev(pmInput))] == prev(RS[reader]) && hasSuffix(prev(RS[reader]), RS[reader])
